@@ -15,6 +15,16 @@ def units():
         U.append(dict(base, name="ima.aiff_decode_step.ch%d" % ch, entry="h_ima_aiff", defines=["-DLAYOUT_AIFF", "-DCH=%d" % ch],
                       function="ima_adpcm.c:aiff_ima_decode_block", cbmc_flags=["--unwind", "40"],
                       kind="proof(full domain of predictor x step index x code, first two steps per channel; channels=%d)" % ch))
+    for nm, entry, be in (("float32_write", "h_f32_write", "kissat"), ("float32_read", "h_f32_read", "kissat")):
+        U.append({"name": "ieee." + nm, "props": ["C20"], "harness": "ieee_ser.harness.c", "entry": entry, "dfcc": False, "backend": be,
+                  "function": "float32.c:float32_le_%s, float32_be_%s" % (nm.split("_")[1], nm.split("_")[1]), "timeout": 1200,
+                  "kind": "proof(full domain: every normal single precision value)",
+                  "trusted": ["E1 models of frexp (normal doubles) and pow (2.0, small integer), written on the IEEE bit pattern"]})
+    for nm, entry in (("double64_write", "h_f64_write"), ("double64_read", "h_f64_read")):
+        U.append({"name": "ieee." + nm, "props": ["C20"], "harness": "ieee_ser64.harness.c", "entry": entry, "dfcc": False, "backend": "kissat",
+                  "function": "double64.c:double64_le_%s, double64_be_%s" % (nm.split("_")[1], nm.split("_")[1]), "timeout": 1200,
+                  "cbmc_flags": ["--unwind", "10"], "kind": "proof(full domain: every normal double precision value)",
+                  "trusted": ["E1 models of frexp (normal doubles), pow (2.0, small integer), fmod (x, 1.0), written on the IEEE definitions"]})
     for lay, fn in (("WAV", "wavlike_ima_seek"), ("AIFF", "aiff_ima_seek")):
         for ch in (1, 2):
             U.append({"name": "ima.%s.ch%d" % (fn, ch), "props": ["C06"], "harness": "ima_seek.harness.c", "entry": "h_ima_seek", "enforce": fn, "replace": ["psf_fseek"],
@@ -29,7 +39,7 @@ NOT_DECIDED = {
     "C06": ["IMA seek: a failing psf_fseek inside the codec seek is ignored by the code (return value unchecked); the units assume repositioning succeeds",
             "MS ADPCM, PAF24, SDS, ALAC, DWVW, GSM610 seek functions"],
     "C20": ["Microsoft ADPCM block decoder (published definitions disagree on truncating division vs arithmetic shift; no single reference)",
-            "portable IEEE-754 serialisers float32_*_read/write, double64_*_read/write (pow/frexp based; multiplier circuits out of SAT reach)",
+            "subnormal values and zero sign through the portable IEEE-754 serialisers (the property speaks of normal values)",
             "OKI/VOX codec (excluded by the property text)"],
 }
 ASSUMPTIONS = {}
